@@ -146,11 +146,26 @@ def _case(victims, kind, off, cls, with_cache, do_repair):
                 if not cache_on:
                     pr2._sp_cache_read = True   # a session that does not consult the persistent cache
                 try:
-                    got = pr2.open_job(id=d).statepoint()
-                    if refs.canon_id(got) != d:
-                        problems.append(("open_job(id) accepted a state point that does not hash to the id", d, got))
-                except Exception:  # noqa  -- raising (JobsCorruptedError, KeyError, UnicodeDecodeError ...) is "not yielding a state point"
+                    handle = pr2.open_job(id=d)
+                except Exception:  # noqa
+                    continue
+                for attempt in (1, 2, 3):      # the same handle asked again: a failed validated load must not be remembered as done
+                    try:
+                        got = handle.statepoint() if attempt != 3 else dict(handle.cached_statepoint)
+                        if refs.canon_id(got) != d:
+                            problems.append(("open_job(id) accepted a state point that does not hash to the id", d, got, "attempt", attempt))
+                    except Exception:  # noqa  -- raising (JobsCorruptedError, KeyError, UnicodeDecodeError ...) is "not yielding a state point"
+                        pass
+                raw_before = fs.get(f"/p/workspace/{d}/signac_statepoint.json")
+                try:
+                    handle.init()
+                except Exception:  # noqa
                     pass
+                raw_after = fs.get(f"/p/workspace/{d}/signac_statepoint.json")
+                if d in damaged and raw_after != raw_before and _classify(raw_after, d):
+                    problems.append(("init() through a by-id handle wrote a state point file that does not hash to the id", d, raw_after))
+                if raw_after != raw_before:
+                    fs.put(f"/p/workspace/{d}/signac_statepoint.json", raw_before) if raw_before is not None else fs.delete_raw(f"/p/workspace/{d}/signac_statepoint.json")
         problems += _launder_case(victims, kind, off, cls, with_cache)
         memfs.install(fs)    # the nested simulator un-installed the environment stubs on exit
         if do_repair and not problems:
